@@ -53,7 +53,18 @@ type client struct {
 	transcript []string
 	dead       bool // EOF or error seen while reading
 	watchdog   bool // a read ran into replyWatchdog
+
+	// stall, when set, is asked while a reply is overdue (first after stallFirst, then every
+	// stallEvery; never a verdict by itself): it returns a non-empty description when it can show
+	// LOGICALLY that no reply will ever come (deadlock.go). The read then ends with Err "deadlock".
+	stall    func() string
+	deadlock string
 }
+
+const (
+	stallFirst = 2 * time.Second
+	stallEvery = 3 * time.Second
+)
 
 func dialClient(addr string) (*client, error) { return dialClientFrom(addr, "") }
 
@@ -103,9 +114,29 @@ func (c *client) readReply() reply {
 		return reply{EOF: true}
 	}
 	var r reply
+	hard := time.Now().Add(replyWatchdog)
+	partial := ""
+	wait := stallFirst
 	for {
-		c.conn.SetReadDeadline(time.Now().Add(replyWatchdog))
+		dl := hard
+		if c.stall != nil && time.Now().Add(wait).Before(hard) {
+			dl = time.Now().Add(wait)
+		}
+		c.conn.SetReadDeadline(dl)
 		line, err := c.br.ReadString('\n')
+		line = partial + line
+		partial = ""
+		if err != nil && errors.Is(err, os.ErrDeadlineExceeded) && c.stall != nil && time.Now().Before(hard) {
+			// overdue, not yet given up: is the server provably stuck?
+			partial = line
+			wait = stallEvery
+			if why := c.stall(); why != "" {
+				c.dead, c.deadlock = true, why
+				c.transcript = append(c.transcript, "S! no reply, and none can come: "+why)
+				return reply{Err: "deadlock"}
+			}
+			continue
+		}
 		if err != nil {
 			c.dead = true
 			if errors.Is(err, os.ErrDeadlineExceeded) {
@@ -180,12 +211,12 @@ func dotStuff(msg []byte) []byte {
 	return out.Bytes()
 }
 
-// freePort asks the kernel for an unused loopback port.
-func freePort() (int, error) {
+// freePort asks the kernel for an unused loopback port on host (127.0.0.1 or ::1).
+func freePort(host string) (int, error) {
 	var err error
 	for try := 0; try < 400; try++ {
 		var l net.Listener
-		l, err = net.Listen("tcp", "127.0.0.1:0")
+		l, err = net.Listen("tcp", net.JoinHostPort(host, "0"))
 		if err == nil {
 			defer l.Close()
 			return l.Addr().(*net.TCPAddr).Port, nil
